@@ -409,6 +409,9 @@ SPECS["C16"] = dict(
     theorems=[
         "Woodpile.Props.C16.refines_ordered_map",
         "Woodpile.Props.C16.run_refines_ordered_map",
+        # session 3: "after every operation" with the prefix explicit
+        "Woodpile.Props.C16.runRef_take",
+        "Woodpile.Props.C16.after_every_operation",
         "Woodpile.Props.C16.run_refines_from_container",
         "Woodpile.Props.C16.no_panic_valid",
         "Woodpile.Props.C16.ends_live",
